@@ -22,7 +22,7 @@ fn spec(t: Tier) -> Spec {
     Spec {
         id: "C10",
         level: "fault_enumeration",
-        rule: format!("every ordered forest with <= {} nodes over leaves (file, empty directory, link to an outside file, link to an outside directory holding a file (one outside directory per link), dangling link) and directories, as the content of r/; (sibling names a, b., c, d.., ..., f: some end in a dot) x {} expressions before -delete ({:?}); x -P -H -L; x starting points r | lr (a link to r) | r s | s r (s a second fixed tree, so that a failed removal can lie under a starting point that is not the last). Removal faults arise by construction (a matched directory with an unmatched child: rmdir fails) — every placement the expressions and trees produce is enumerated. For each case the tree is built twice: (1) the real find runs `-depth EXPR -print` and the output must be the reference list of matched entries in depth-first order; (2) on the rebuilt tree the real find runs `EXPR -delete -printf 'D %p' -o -printf 'N %p'`: the D lines must be exactly the removals the reference simulation predicts, in order (a directory only when all its children were removed; a link itself, never its target), N lines everything else incl. failed removals, exit status and a diagnostic iff a removal failed, walk not stopped; (3) the snapshot (path, type, mode, size, link target, content hash, link count) of the whole sandbox after the run must equal the predicted one: nothing else changed inside or outside. non-trivial = case in which at least one entry is matched and at least one is not, or a removal fails", max_nodes(t), EXPRS.len(), EXPRS),
+        rule: format!("every ordered forest with <= {} nodes over leaves (file, empty directory, link to an outside file, link to an outside directory holding a file (one outside directory per link), dangling link) and directories, as the content of r/; (sibling names a, b., c, d.., ..., f: some end in a dot) x {} expressions before -delete ({:?}); x -P -H -L; x starting points r | lr (a link to r) | r s | s r (s a second fixed tree, so that a failed removal can lie under a starting point that is not the last). Removal faults arise by construction (a matched directory with an unmatched child: rmdir fails) — every placement the expressions and trees produce is enumerated. For each case the tree is built twice: (1) the real find runs `-depth EXPR -print` and the output must be the reference list of matched entries in depth-first order; (2) on the rebuilt tree the real find runs `EXPR -delete -printf 'D %p' -o -printf 'N %p'`: the D lines must be exactly the removals the reference simulation predicts, in order (a directory only when all its children were removed; a link itself, never its target), N lines everything else incl. failed removals, exit status and a diagnostic iff a removal failed, walk not stopped; (3) the snapshot (path, type, mode, size, link target, content hash, link count) of the whole sandbox after the run must equal the predicted one: nothing else changed inside or outside. Every tree is also run with `-delete -delete`: the second removal of an entry that is already gone must fail (diagnostic, -delete false, exit != 0). non-trivial = case in which at least one entry is matched and at least one is not, or a removal fails", max_nodes(t), EXPRS.len(), EXPRS),
         bound: json!({"max_nodes": max_nodes(t), "expressions": EXPRS, "follow": ["-P","-H","-L"], "roots": ["r","lr","r s","s r"]}),
         assumptions: vec![
             "-empty (whose truth changes as the walk deletes) and a starting point spelled '.' are outside the check".into(),
@@ -290,6 +290,43 @@ fn one_case(ctx: &mut Ctx, forest: &[Shape], root: &str, follow: Follow, e: &str
     None
 }
 
+/// An entry that vanished between the visit and the removal cannot be removed either: with
+/// `-delete -delete` the second -delete must fail for every entry (diagnostic, false, exit != 0).
+fn twice_case(ctx: &mut Ctx, forest: &[Shape]) -> Option<(String, String)> {
+    let fs = c10_fs(forest);
+    if let Err(err) = build(ctx, &fs) {
+        ctx.rep.machinery(format!("tree builder: {err}"));
+        return None;
+    }
+    let p = plan(&fs, "r", Follow::P, "always");
+    let before = sandbox::snapshot(&ctx.sbx);
+    let args = ["r", "-sorted", "-delete", "-delete", "-printf", "D %p\\n", "-o", "-printf", "N %p\\n"];
+    let got = run_find(&args);
+    let after = sandbox::snapshot(&ctx.sbx);
+    ctx.rep.evaluations += 1;
+    ctx.rep.nontrivial += 1;
+    ctx.rep.count("cases_with_failed_removals", 1);
+    if got.panicked() {
+        return Some(("C10 panic [-delete -delete]".into(), got.brief()));
+    }
+    let detail = format!("tree {} ; find {:?}\nstdout {:?}\nstatus {:?} stderr {:?}", fs.describe(0), args, lines(&got.out), got.code, String::from_utf8_lossy(&got.err));
+    if after != predicted_snapshot(&before, &fs, &p) {
+        return Some(("C10 removed or changed more than the matched entries [-delete -delete]".into(), detail));
+    }
+    let n: Vec<String> = lines(&got.out);
+    let want: Vec<String> = p.visited.iter().map(|v| format!("N {v}")).collect();
+    if n != want {
+        return Some(("C10 -delete true for an entry that was already gone [-delete -delete]".into(), format!("{detail}\nexpected {:?}", want)));
+    }
+    if got.code == Ok(0) {
+        return Some(("C10 exit status 0 although a removal failed [-delete -delete]".into(), detail));
+    }
+    if String::from_utf8_lossy(&got.err).lines().count() < p.visited.len() {
+        return Some(("C10 no diagnostic for a failed removal [-delete -delete]".into(), detail));
+    }
+    None
+}
+
 fn run(ctx: &mut Ctx) {
     let labels = [Leaf::File, Leaf::EmptyDir, Leaf::LnFile, Leaf::LnDir, Leaf::LnDangling];
     for n in 0..=max_nodes(ctx.tier) {
@@ -303,6 +340,9 @@ fn run(ctx: &mut Ctx) {
             let enc = tree::encode_forest(&forest);
             ctx.progress_note(&enc);
             ctx.rep.count("trees", 1);
+            if let Some((sig, detail)) = twice_case(ctx, &forest) {
+                ctx.rep.violation(&sig, detail, json!({"prop":"C10","forest":enc,"twice":true}));
+            }
             for root in ["r", "lr", "r s", "s r"] {
                 for follow in [Follow::P, Follow::H, Follow::L] {
                     for e in EXPRS {
@@ -326,6 +366,15 @@ fn run(ctx: &mut Ctx) {
 
 fn replay(case: &Value, ctx: &mut Ctx) -> Option<String> {
     let forest = tree::decode_forest(case["forest"].as_str()?)?;
+    if case["twice"].as_bool().unwrap_or(false) {
+        return match twice_case(ctx, &forest) {
+            Some((sig, detail)) => {
+                ctx.rep.violation(&sig, detail, case.clone());
+                Some(sig)
+            }
+            None => None,
+        };
+    }
     let follow = match case["follow"].as_str()? {
         "-H" => Follow::H,
         "-L" => Follow::L,
